@@ -1,7 +1,7 @@
 SPECIFICATION SpecD
 CONSTANTS
   TPS = 2
-  MaxTime = 3
+  MaxTime = 2
   MaxLat = 1
   Vals <- V02
   Scenarios <- RepairedScenarios
@@ -32,6 +32,7 @@ INVARIANT JoinOnlyWhenDone
 INVARIANT StopJoinsAll
 INVARIANT EndsOnlyWhenStopped
 INVARIANT CrashOnlyOnError
+INVARIANT NodeStatsSurvivesTransportError
 INVARIANT SamplesStored
 INVARIANT BaseMeta
 INVARIANT JvmDelta
